@@ -104,11 +104,66 @@ def handleCombine (j : Json) : Except String Json := do
   | .ok c => return Json.mkObj [("ok", jCnf c)]
   | .error e => return errJson e
 
+partial def parseFormula (j : Json) : Except String Formula :=
+  match j with
+  | .num _ => do let i ← j.getInt?; return .lit i
+  | .obj _ =>
+    match j.getObjVal? "and" with
+    | .ok (.arr a) => do return .and (← a.toList.mapM parseFormula)
+    | _ =>
+    match j.getObjVal? "or" with
+    | .ok (.arr a) => do return .or (← a.toList.mapM parseFormula)
+    | _ =>
+    match j.getObjVal? "not" with
+    | .ok f => do return .not (← parseFormula f)
+    | _ =>
+    match j.getObjVal? "if" with
+    | .ok (.arr #[p, q]) => do return .imp (← parseFormula p) (← parseFormula q)
+    | _ =>
+    match j.getObjVal? "iff" with
+    | .ok (.arr #[p, q]) => do return .iff (← parseFormula p) (← parseFormula q)
+    | _ => .error "bad formula object"
+  | _ => .error "bad formula"
+
+partial def formulaJson : Formula → Json
+  | .lit i => toJson i
+  | .and l => Json.mkObj [("and", Json.arr (l.map formulaJson).toArray)]
+  | .or l => Json.mkObj [("or", Json.arr (l.map formulaJson).toArray)]
+  | .not f => Json.mkObj [("not", formulaJson f)]
+  | .imp p q => Json.mkObj [("if", Json.arr #[formulaJson p, formulaJson q])]
+  | .iff p q => Json.mkObj [("iff", Json.arr #[formulaJson p, formulaJson q])]
+
+def handleLogic (j : Json) : Except String Json := do
+  let m ← getStr j "m"
+  match m with
+  | "tseitin" =>
+    let f ← parseFormula (← j.getObjVal? "f")
+    let n ← getNat j "next"
+    let r := toCnfTseitin f n
+    return Json.mkObj [("ok", Json.mkObj [("formula", formulaJson r.toFormula), ("next", toJson r.next)])]
+  | "naive" =>
+    let f ← parseFormula (← j.getObjVal? "f")
+    let n ← getNat j "next"
+    return Json.mkObj [("ok", Json.mkObj [("formula", formulaJson (toCnfNaive f)), ("next", toJson n)])]
+  | "switching" =>
+    let f ← parseFormula (← j.getObjVal? "f")
+    let n ← getNat j "next"
+    match toCnfSwitching 4000 f n with
+    | .ok (g, n') => return Json.mkObj [("ok", Json.mkObj [("formula", formulaJson g), ("next", toJson n')])]
+    | .error e => return errJson e
+  | "cnf_to_json" =>
+    let fs ← (← j.getObjValAs? (Array Json) "fs").toList.mapM parseFormula
+    match cnfToJson fs with
+    | .ok c => return Json.mkObj [("ok", jCnf c)]
+    | .error e => return errJson e
+  | _ => throw s!"unknown logic method {m}"
+
 def handle (j : Json) : Except String Json := do
   let op ← getStr j "op"
   match op with
   | "card" => handleCard j
   | "combine" => handleCombine j
+  | "logic" => handleLogic j
   | _ => throw s!"unknown op {op}"
 
 partial def loop (h : IO.FS.Stream) (out : IO.FS.Stream) : IO Unit := do
